@@ -389,6 +389,17 @@ type dK8s struct {
 	// and answered, and keeps the gates
 	real k8s.Kubernetes
 	api  *dAPI
+	// a GC pass has read the node-local pod list (it holds the service lock now)
+	listed chan struct{}
+}
+
+func (k *dK8s) noteListed() {
+	if k.listed != nil {
+		select {
+		case k.listed <- struct{}{}:
+		default:
+		}
+	}
 }
 
 const dNode = "node1"
@@ -470,7 +481,7 @@ func dNewRealK8s(t *testing.T) (k8s.Kubernetes, *dAPI) {
 
 func (k *dK8s) clone(x *dWorld) *dK8s {
 	n := &dK8s{x: x, pods: map[int]*dPod{}, apiErr: k.apiErr, listErr: k.listErr, gates: map[int]chan struct{}{}, atGate: make(chan int, 256),
-		real: k.real, api: k.api}
+		real: k.real, api: k.api, listed: make(chan struct{}, 16)}
 	for p, st := range k.pods {
 		c := *st
 		n.pods[p] = &c
@@ -535,6 +546,7 @@ func (k *dK8s) GetPod(ctx context.Context, namespace, name string, cache bool) (
 }
 
 func (k *dK8s) GetLocalPods() ([]*daemon.PodInfo, error) {
+	defer k.noteListed()
 	if k.real != nil {
 		list, err := k.real.GetLocalPods()
 		live := []int{}
@@ -1299,6 +1311,9 @@ func (d *dDriver) release(f *dFlight) {
 		s.x.mu.Unlock()
 		close(f.gate)
 		f.gate = nil
+		if f.k == "gcgate" {
+			close(f.done) // not a request: nothing to wait for
+		}
 	}
 }
 
@@ -1368,6 +1383,91 @@ func (d *dDriver) gcFaulty() {
 	s.x.mu.Lock()
 	s.x.emit(vt.M{"ev": "gc_ret", "g": g, "err": err != nil})
 	s.x.mu.Unlock()
+}
+
+// dLoopParked: is the goroutine of startGarbageCollectionLoop waiting for its next period (parked in the select of
+// k8s.io/apimachinery/pkg/util/wait)? Exact, no timing involved.
+func dLoopParked() bool {
+	for _, g := range strings.Split(dStacks(), "\n\n") {
+		if strings.Contains(g, "startGarbageCollectionLoop") && strings.Contains(g, "[select") && strings.Contains(g, "apimachinery/pkg/util/wait.") {
+			return true
+		}
+	}
+	return false
+}
+
+// gcLoop runs the REAL periodic loop (startGarbageCollectionLoop): its first pass starts at once. The pass is logged like
+// a directly called one; afterwards the loop itself is observed: it has returned, or it waits for the next period.
+// fault: netlink is unusable during the pass (see dWithNoFreeFD).
+func (d *dDriver) gcLoop(fault bool) {
+	d.joinAll()
+	if d.crashed() || !d.quiescent() {
+		return
+	}
+	s := d.lock()
+	d.nextG++
+	g := d.nextG
+	s.x.emit(vt.M{"ev": "gc_call", "g": g})
+	if fault {
+		s.x.emit(vt.M{"ev": "env_disturb", "what": "netlink unusable during this pass"})
+	}
+	for drained := false; !drained; {
+		select {
+		case <-s.k8s.listed:
+		default:
+			drained = true
+		}
+	}
+	s.x.mu.Unlock()
+	ctx, cancel := context.WithCancel(context.Background())
+	returned := make(chan struct{})
+	pass := func() {
+		go func() {
+			s.svc.startGarbageCollectionLoop(ctx)
+			close(returned)
+		}()
+		select {
+		case <-s.k8s.listed: // the pass holds the service lock
+		case <-returned:
+		case <-time.After(30 * time.Second):
+			d.t.Fatalf("the GC loop did not start a pass")
+		}
+		s.svc.Lock() // granted when the pass is over
+		s.svc.Unlock()
+	}
+	if fault {
+		dWithNoFreeFD(d.t, pass)
+	} else {
+		pass()
+	}
+	s.x.mu.Lock()
+	s.x.emit(vt.M{"ev": "gc_ret", "g": g, "err": false})
+	s.x.mu.Unlock()
+	alive, decided := false, false
+	for i := 0; i < 100000 && !decided; i++ {
+		select {
+		case <-returned:
+			decided = true
+		default:
+			if dLoopParked() {
+				alive, decided = true, true
+			} else {
+				time.Sleep(200 * time.Microsecond)
+			}
+		}
+	}
+	if !decided {
+		d.t.Fatalf("the GC loop neither returned nor waits for its next period")
+	}
+	s.x.mu.Lock()
+	s.x.emit(vt.M{"ev": "gcloop", "alive": alive})
+	s.x.mu.Unlock()
+	cancel()
+	select {
+	case <-returned:
+	case <-time.After(30 * time.Second):
+		d.t.Fatalf("the GC loop did not stop")
+	}
 }
 
 func (d *dDriver) gc() {
@@ -1497,6 +1597,17 @@ func (d *dDriver) step(st vt.M) {
 		} else {
 			d.gc()
 		}
+	case "gcloop":
+		d.gcLoop(vt.Bool(st["fault"]))
+	case "gategc":
+		// the next Delete of pod p's record (the GC pass deletes it after it handed the address back) waits at a gate
+		p := vt.Int(st["p"])
+		s = d.lock()
+		g := make(chan struct{})
+		s.store.gateDel[p] = g
+		s.x.mu.Unlock()
+		d.nextR++
+		d.flights[100000+d.nextR] = &dFlight{r: 100000 + d.nextR, p: p, k: "gcgate", gate: g, done: make(chan struct{})}
 	case "dbfault":
 		s = d.lock()
 		if vt.Str(st["op"]) == "del" {
@@ -1708,6 +1819,29 @@ func dRandomScenarios(fam string, n int) [][]vt.M {
 				}
 			}
 		case "c05":
+			if i%4 == 2 {
+				// a pod vanished without DEL; the GC pass that collects it sits between the pool release and the record delete
+				// while another pod asks for an address on a full node; then the daemon is killed, or the pass goes on
+				sc[0]["conf"] = vt.M{"n1": 3, "n2": 0, "slots": 1, "cap": 3, "policy": "most_ips", "fam": fam, "probe": true}
+				sc = append(sc, dPodStep(4, true, "run", false, false))
+				for p := 1; p <= 3; p++ {
+					sc = append(sc, dCall("add", p, 1, "none"))
+				}
+				v := 1 + rng.Intn(3)
+				sc = append(sc, dPodStep(v, false, "none", false, false), vt.M{"a": "gategc", "p": v}, vt.M{"a": "gc"}, dCall("add", 4, 1, "none"))
+				if rng.Intn(2) == 0 {
+					sc = append(sc, vt.M{"a": "kill"})
+				} else {
+					sc = append(sc, vt.M{"a": "open", "p": 0}, vt.M{"a": "join"})
+					if rng.Intn(2) == 0 {
+						sc = append(sc, vt.M{"a": "restart"})
+					}
+				}
+				sc = append(sc, vt.M{"a": "gc"}, vt.M{"a": "gc"}, dCall("add", 4, 2, "none"), dCall("add", 1+v%3, 2, "none"), vt.M{"a": "restart"},
+					dCall("add", 4, 3, "none"))
+				out = append(out, sc)
+				continue
+			}
 			n := 8 + rng.Intn(8)
 			if i%5 == 4 {
 				// the pool has to go to the cloud (assign on an attached interface, create a new one)
@@ -1816,9 +1950,12 @@ func dRandomScenarios(fam string, n int) [][]vt.M {
 			}
 			switch i % 3 {
 			case 0:
-				if i%2 == 0 {
+				if i%4 == 0 {
 					// the first pass runs into a transient fault of the rule cleanup; afterwards the node is healthy
 					sc = append(sc, vt.M{"a": "gc", "fault": true})
+				} else if i%4 == 2 {
+					// the same through the real periodic loop: after the failed pass the loop must still be there
+					sc = append(sc, vt.M{"a": "gcloop", "fault": true})
 				}
 				sc = append(sc, vt.M{"a": "gc"}, vt.M{"a": "gc"}, vt.M{"a": "gc"})
 			case 1:
@@ -1901,7 +2038,7 @@ func TestVerifDaemon(t *testing.T) {
 			cloud.enis[i+1] = fe
 			cloud.nextEni = i + 1
 		}
-		kk := &dK8s{x: x, pods: map[int]*dPod{}, gates: map[int]chan struct{}{}, atGate: make(chan int, 256)}
+		kk := &dK8s{x: x, pods: map[int]*dPod{}, gates: map[int]chan struct{}{}, atGate: make(chan int, 256), listed: make(chan struct{}, 16)}
 		if conf.realk8s {
 			kk.real, kk.api = dNewRealK8s(t)
 		}
@@ -1949,7 +2086,7 @@ func TestVerifKillChild(t *testing.T) {
 		p := 1 + rng.Intn(4)
 		key := dNS + "/" + dPodName(p)
 		if rng.Intn(3) > 0 {
-			c, e, a := 1+rng.Intn(3), 1+rng.Intn(2), 1+rng.Intn(6)
+			c, e, a := 1+rng.Intn(3), 1+rng.Intn(2), 10*p+rng.Intn(6) // no address in two records
 			cid := dCid(c)
 			rec := daemon.PodResources{PodInfo: &daemon.PodInfo{Name: dPodName(p), Namespace: dNS}, ContainerID: &cid,
 				Resources: []daemon.ResourceItem{{Type: daemon.ResourceTypeENIIP, ENIID: dEniID(e), ENIMAC: dEniMAC(e), IPv4: dV4(a).String()}},
